@@ -303,6 +303,11 @@ impl Ingester {
     /// WAL sync interval (default 100ms). This matches InfluxDB 3 and Prometheus
     /// behavior — fsync runs asynchronously on the configured interval.
     pub async fn write(&self, batch: RecordBatch) -> Result<()> {
+        // Nothing to store (e.g. a remote-write request whose series carry no samples);
+        // the shard key below is derived from the first row.
+        if batch.num_rows() == 0 {
+            return Ok(());
+        }
         let start_time = std::time::Instant::now();
         let batch_size = batch.get_array_memory_size();
         let row_count = batch.num_rows() as u64;
